@@ -187,6 +187,23 @@ where
         self.filter1.can_subscribe(topic_hash) && self.filter2.can_subscribe(topic_hash)
     }
 
+    /// Both filters get to see the whole request, so that a filter which limits requests as a
+    /// whole (e.g. [`MaxCountSubscriptionFilter`]) also does so as a member of a combination.
+    /// A subscription passes if both filters let it pass.
+    fn filter_incoming_subscriptions<'a>(
+        &mut self,
+        subscriptions: &'a [Subscription],
+        currently_subscribed_topics: &BTreeSet<TopicHash>,
+    ) -> Result<HashSet<&'a Subscription>, String> {
+        let first = self
+            .filter1
+            .filter_incoming_subscriptions(subscriptions, currently_subscribed_topics)?;
+        let second = self
+            .filter2
+            .filter_incoming_subscriptions(subscriptions, currently_subscribed_topics)?;
+        Ok(first.intersection(&second).copied().collect())
+    }
+
     fn filter_incoming_subscription_set<'a>(
         &mut self,
         subscriptions: HashSet<&'a Subscription>,
